@@ -47,6 +47,14 @@ def faithful (pv fc : List Event) : Bool :=
 /-- **pure**: the inventory after the preview is the inventory before it -/
 def unchanged (before after : Inv) : Bool := decide (before = after)
 
+/-- **pure**, the rest of the directory: a preview neither creates nor deletes any other entry (temporary files, lock
+    file, …). (That no entry's *content* changes is checked on file-system snapshots by the harness.) -/
+def othersUnchanged (before after : Others) : Bool := sameSet before after && decide (before.length = after.length)
+
+/-- what `-f` may do outside the shard set: nothing but create the lock file -/
+def forceOthersOk (before after : Others) : Bool :=
+  before.all (fun x => decide (x ∈ after)) && after.all (fun x => decide (x ∈ before) || decide (x = lockName))
+
 /-- the whole statement for one command on one state -/
 def checkP (before afterPreview : Inv) (pv fc : List Event) : Bool :=
   unchanged before afterPreview && faithful pv fc
